@@ -72,7 +72,7 @@ theorem step_refines {c : Cbuf} (hi : Inv c) (op : Op) :
     simp only [stepM, stepS]
     exact ⟨by rw [h1]; rfl, h2⟩
   | writeLine s =>
-    obtain ⟨h1, h2⟩ := writeLine_refines hi s
+    obtain ⟨h1, h2, _⟩ := writeLine_refines hi s
     simp only [stepM, stepS]
     exact ⟨by rw [h1]; rfl, h2⟩
   | read len =>
